@@ -369,6 +369,34 @@ pub fn steer_liquidatable(tr: &mut Tracer, w: &mut World, rng: &mut Rng, v: u32,
             tr.step(w, &Op::Feed { sender: ID_OWNER, m: PMsg::Append { price: p, t: bi.time.seconds() } });
         }
     }
+    // when the vAMM price is over the spread limit the ratio in force is the higher of the vAMM-priced and the
+    // oracle-priced one: half of the time the maintenance ratio is then put right at the oracle-priced ratio
+    // (one below, equal, one above), the boundary between "may be liquidated" and "may not"
+    if rng.chance(1, 2) {
+        let osl: Option<bool> = w.q(&w.addr(v), &mv::QueryMsg::IsOverSpreadLimit {});
+        if osl == Some(true) {
+            let mwf: Option<me::Position> = w.q(&w.engine, &me::QueryMsg::PositionWithFundingPayment { vamm: w.addr(v).to_string(), trader: w.addr(t).to_string() });
+            let po: Option<me::PositionUnrealizedPnlResponse> = w.q(&w.engine, &me::QueryMsg::UnrealizedPnl { vamm: w.addr(v).to_string(), trader: w.addr(t).to_string(), calc_option: me::PnlCalcOption::Oracle });
+            if let (Some(m), Some(po)) = (mwf, po) {
+                let n = po.position_notional.u128() as i128;
+                let pnl = if po.unrealized_pnl.negative { -(po.unrealized_pnl.value.u128() as i128) } else { po.unrealized_pnl.value.u128() as i128 };
+                let eq = m.margin.u128() as i128 + pnl;
+                if n > 0 && eq > 0 {
+                    if let Some(x) = eq.checked_mul(d as i128) {
+                        let r = (x / n) as u128;
+                        let tgt = match rng.below(3) { 0 => r.saturating_sub(1), 1 => r, _ => r + 1 };
+                        if tgt <= d {
+                            let cfg2 = eng_cfg(w);
+                            if tgt > cfg2.initial_margin_ratio.u128() {
+                                tr.step(w, &Op::Eng { sender: ID_OWNER, funds: 0, m: EMsg::UpdCfg { owner: None, ifund: None, fpool: None, init: Some(tgt), maint: None, plr: None, liqfee: None } });
+                            }
+                            tr.step(w, &Op::Eng { sender: ID_OWNER, funds: 0, m: EMsg::UpdCfg { owner: None, ifund: None, fpool: None, init: None, maint: Some(tgt), plr: None, liqfee: None } });
+                        }
+                    }
+                }
+            }
+        }
+    }
     if edge {
         // reference price of the band with a zero limit = price at the end of the previous block
         tr.step(w, &Op::Vamm { sender: ID_OWNER, v, m: VMsg::UpdCfg { hold: None, oi: None, toll: None, spread: None, fluct: Some(0), engine: None, ifund: None, feed: None, twap: None } });
@@ -614,6 +642,9 @@ pub fn history(tr: &mut Tracer, w: &mut World, rng: &mut Rng, p: &Profile) {
             let tight = *rng.pick(&[d / 1000, d / 500, d / 100]);
             tr.step(w, &Op::Vamm { sender: ID_OWNER, v, m: VMsg::UpdCfg { hold: None, oi: None, toll: None, spread: None, fluct: Some(tight), engine: None, ifund: None, feed: None, twap: None } });
             tr.step(w, &Op::Eng { sender: t, funds: 0, m: EMsg::Close { vamm: v, limit: 0 } });
+            // a second close in the same block: when the first (partial) one left the price outside the band the vAMM
+            // refuses the reduced swap as well, and the whole transaction has to fail cleanly
+            if rng.chance(1, 2) { tr.step(w, &Op::Eng { sender: t, funds: 0, m: EMsg::Close { vamm: v, limit: 0 } }); }
             if rng.chance(1, 2) {
                 tr.step(w, &Op::Block { dt: 1 + rng.below(20), dh: 1 });
                 match rng.below(3) {
@@ -637,6 +668,7 @@ pub fn history(tr: &mut Tracer, w: &mut World, rng: &mut Rng, p: &Profile) {
             tr.step(w, &Op::Vamm { sender: ID_OWNER, v, m: VMsg::UpdCfg { hold: None, oi: None, toll: None, spread: None, fluct: Some(tight), engine: None, ifund: None, feed: None, twap: None } });
             let q0 = vamm_state(w, v).quote_asset_reserve.u128();
             tr.step(w, &Op::Eng { sender: t, funds: 0, m: EMsg::Close { vamm: v, limit: 0 } });
+            if !whole && rng.chance(1, 3) { tr.step(w, &Op::Eng { sender: t, funds: 0, m: EMsg::Close { vamm: v, limit: 0 } }); }
             let q1 = vamm_state(w, v).quote_asset_reserve.u128();
             let (side, gap) = if q1 < q0 { (Side::Buy, q0 - q1) } else { (Side::Sell, q1 - q0) };
             let others: Vec<u32> = TRADERS.iter().cloned().filter(|x| *x != t).collect();
@@ -788,6 +820,15 @@ pub fn run(out: &mut dyn Write, seed: u64, thorough: bool, n_hist: usize, native
         }
         if profile == "pcf" {
             for v in d.vamms.iter_mut() { v.fluct = 0; v.fperiod = *rng.pick(&[1000u64, 1800, 3600]); }
+        }
+        if profile == "caps" && rng.chance(1, 2) {
+            // a further vAMM whose decimals differ from the engine's (fewer or more): `setup` offers every vAMM of
+            // the deployment to the insurance fund's registry, which must turn this one down
+            let other: u8 = match d.decimals { 6 => 9, 12 => 9, _ => if rng.chance(1, 2) { 6 } else { 12 } };
+            let mut v = d.vamms[0].clone();
+            v.decimals = other; v.toll = 0; v.spread = 0; v.fluct = 0;
+            v.b = unit(other) * 100; v.q = v.b * 10;
+            d.vamms.push(v);
         }
         let mut w = World::new(&d, &accounts());
         tr.begin(&w, &format!("engine seed={} h={}", seed, h));
